@@ -116,4 +116,22 @@ PROPS = {
               {"asan": {"workers": 10}, "plain": {"workers": 6}},
               {"asan": {"workers": 10}, "plain": {"workers": 6}}),
     ),
+    "C04": dict(
+        level="exploration",
+        rule=("one run = <=4/5 generated functions (declarations, reads, conditional introduction of locals by eval()/eval_file() into the current "
+              "scope, shadowing blocks, loops incl. the optimised form, recursion, calls of other functions, throwing callbacks) plus two capturing "
+              "lambdas, called by 1..3 actors in a generated order with generated flags/recursion depths (direct, bind and attribute call styles for "
+              "the lambdas); every run is executed twice: lookup hints on, and ignored through hook H2. distinct = hash of (functions, history) x "
+              "interleaving; non-trivial = at least one function call. Oracles: hints-on == hints-ignored (results and per-actor read traces) "
+              "== the generator's own scope model."),
+        real_vs_stub=REAL,
+        assumptions=COMMON_ASSUME + ["every read prints a tag unique to one declaration, so a read identifies the binding it reached",
+                                     "two constructs are excluded from generation because they are listed known findings (see known_findings.json): a read that is "
+                                     "evaluated both before and after eval() introduced a local of that name in the same or an inner scope",
+                                     "generated blocks start with a static declaration (a block without one is made scope-less by the optimizer: property C02's subject)"],
+        expected_probes=["probe_body_evaluated_under_different_layouts", "fault_throw_in_priming_or_later_evaluation"],
+        **two(40, 420,
+              {"asan": {"workers": 8}, "plain": {"workers": 4}, "tsan": {"workers": 4}},
+              {"asan": {"workers": 8}, "plain": {"workers": 4}, "tsan": {"workers": 4}}),
+    ),
 }
